@@ -22,7 +22,9 @@ TSetDef    == IsEvent("SetDeferred") /\ SetDeferred(Ev.m) /\ ObsOK(Ev) /\ Consum
 TProcess   == IsEvent("ProcessInbound") /\ ProcessInbound(Ev.m) /\ ObsOK(Ev) /\ Consume
 TSetUnread == IsEvent("SetUnread") /\ SetUnread(Ev.m, Ev.flag) /\ ObsOK(Ev) /\ Consume
 
-TraceNext == TPrepare \/ TRestart \/ TAddOut \/ TSetSent \/ TSetDef \/ TProcess \/ TSetUnread
+TSetUnreadOut == IsEvent("SetUnreadOut") /\ SetUnreadOut(Ev.m, Ev.flag) /\ ObsOK(Ev) /\ Consume
+
+TraceNext == TSetUnreadOut \/ TPrepare \/ TRestart \/ TAddOut \/ TSetSent \/ TSetDef \/ TProcess \/ TSetUnread
 
 TraceSpec == TraceInit /\ [][TraceNext]_<<vars, tvars>>
 =============================================================================
